@@ -20,9 +20,20 @@ theorem getN_mod_8 (s X : Nat) : getN s 8 X % 256 = getN s 8 X := Nat.mod_eq_of_
 theorem getN_mod_16 (s X : Nat) : getN s 16 X % 65536 = getN s 16 X := Nat.mod_eq_of_lt (getN_lt s 16 X)
 theorem getN_mod_32 (s X : Nat) : getN s 32 X % 4294967296 = getN s 32 X := Nat.mod_eq_of_lt (getN_lt s 32 X)
 
+-- LLC U format modifier bits: the arithmetic of the two groups, whole domain by evaluation
+theorem llc_mod_hi_arith : ∀ v, v < 4 → ∀ h, h < 4 → ∀ l, l < 8 →
+    (((v <<< 3) ||| (((h <<< 3) + l) &&& 7)) >>> 3) % 4 = v ∧ (((v <<< 3) ||| (((h <<< 3) + l) &&& 7)) &&& 7) % 8 = l ∧ ((h <<< 3) + l) >>> 3 = h := by decide
+theorem llc_mod_lo_arith : ∀ v, v < 8 → ∀ h, h < 4 → ∀ l, l < 8 →
+    ((((((h <<< 3) + l) &&& 0x18) ||| v)) >>> 3) % 4 = h ∧ ((((((h <<< 3) + l) &&& 0x18) ||| v)) &&& 7) % 8 = v ∧ ((h <<< 3) + l) &&& 7 = l := by decide
+-- byte-local bit set / clear (LLC I/G and C/R bits): the whole byte domain by evaluation
+set_option maxRecDepth 100000 in
+theorem or_one_word : ∀ W, W < 256 → W ||| 0x01 = putN 0 1 1 W := by decide
+set_option maxRecDepth 100000 in
+theorem and_fe_word : ∀ W, W < 256 → W &&& 0xFE = putN 0 1 0 W := by decide
+
 /-- unfold member loads / stores on the literal members and cancel byte swaps -/
 macro "mem_simp" : tactic => `(tactic|
-  simp (config := {decide := true}) only [ldIP, stIP, ld6, st6, ldM, stM, ldS, stS, ldT, stT, ldP, stP,
+  simp (config := {decide := true}) only [ldIP, stIP, ld6, st6, ldM, stM, ldS, stS, ldT, stT, ldP, stP, ldE, stE,
     memGet, memSet, be16, be32, bswap1_eq, bswap2_mod, bswap2_mod_arg, bswap2_invol, bswap4_mod, bswap4_mod_arg, bswap4_invol,
     getN_mod_8, getN_mod_16, getN_mod_32, Nat.mod_mod,
     Nat.reduceAdd, Nat.reduceMul, Nat.reduceSub, Nat.reduceDiv, Nat.reducePow, Nat.reduceLeDiff, ite_true, ite_false, reduceIte,
@@ -568,11 +579,131 @@ theorem DHCPv6_transaction_id_lens : (⟨"DHCPv6", "transaction_id", 0, 24, 1, D
     rw [or_eq_add _ r 8 (by omega) (by omega)]
     omega
 
+
+/-! ### LLC: address low bits (I/G, C/R) and the bit-fields of the three control formats -/
+
+theorem getN8_lt (s X : Nat) : getN s 8 X < 256 := getN_lt s 8 X
+
+theorem LLC_lowbit_lens (B s : Nat) (c f : String) (hs : s = 8 * B + 0) :
+    (⟨c, f, s, 1, 1, LLC_get_lowbit ⟨B, 0, 8⟩, LLC_set_lowbit ⟨B, 0, 8⟩⟩ : CustomAcc).IsLens := by
+  intro v X hv
+  simp only [Nat.mul_one, Nat.div_one, Nat.reducePow] at hv ⊢
+  subst hs
+  constructor
+  · simp only [LLC_set_lowbit, memSet, memGet]
+    have h01 : v = 0 ∨ v = 1 := by omega
+    rcases h01 with rfl | rfl
+    · simp only [ne_eq, not_true_eq_false, ite_false]
+      rw [and_fe_word _ (getN8_lt _ X), putN_sub 0 1 _ 8 _ _ (by decide)]
+    · simp only [ne_eq, Nat.succ_ne_zero, not_false_eq_true, ite_true, Nat.one_ne_zero]
+      rw [or_one_word _ (getN8_lt _ X), putN_sub 0 1 _ 8 _ _ (by decide)]
+  · simp only [LLC_get_lowbit, memGet]
+    rw [and_low _ 1 0x01 (by decide), ← getN_sub 0 1 (8 * B + 0) 8 X (by decide)]
+    simp only [getN_arith 0 1, Nat.pow_zero, Nat.div_one]
+
+/-- a bit-field member accessed directly in the little-endian view is the lens at its memory position -/
+theorem LE_member_lens (B bit w s : Nat) (c f : String) (get : Nat → Nat) (set : Nat → Nat → Nat) (hs : s = 8 * B + bit)
+    (hg : ∀ X, get X = memGet .le 0 ⟨B, bit, w⟩ X) (hset : ∀ v X, set v X = memSet .le 0 ⟨B, bit, w⟩ v X) :
+    (⟨c, f, s, w, 1, get, set⟩ : CustomAcc).IsLens := by
+  intro v X _
+  subst hs
+  simp only [Nat.mul_one, Nat.div_one, hg, hset, memGet, memSet, and_self]
+
+/-! ### ICMP extension structure header: version (4) | reserved (12) in one big-endian uint16 -/
+theorem ICMPExt_version_lens : (⟨"ICMPExtensionsStructure", "version", 12, 4, 1, ICMPExt_get_version, ICMPExt_set_version⟩ : CustomAcc).IsLens := by
+  intro v X hv
+  simp only [Nat.mul_one, Nat.div_one] at hv ⊢
+  constructor
+  · simp only [ICMPExt_set_version, ICMPExtensionsStructure_version_and_reserved_]
+    mem_simp
+    rw [and_low _ 12 0xfff (by decide), Nat.or_comm]
+    have hW := getN_lt 0 16 X
+    rw [Nat.shiftLeft_eq, or_eq_add _ _ 12 (by omega) (by omega)]
+    arith_simp at hW ⊢
+    omega
+  · simp only [ICMPExt_get_version, ICMPExtensionsStructure_version_and_reserved_]
+    mem_simp
+    have hW := getN_lt 0 16 X
+    rw [and_low _ 4 0xf (by decide)]
+    arith_simp at hW ⊢
+    omega
+
+theorem ICMPExt_reserved_lens : (⟨"ICMPExtensionsStructure", "reserved", 0, 12, 1, ICMPExt_get_reserved, ICMPExt_set_reserved⟩ : CustomAcc).IsLens := by
+  intro v X hv
+  simp only [Nat.mul_one, Nat.div_one] at hv ⊢
+  constructor
+  · simp only [ICMPExt_set_reserved, ICMPExtensionsStructure_version_and_reserved_]
+    mem_simp
+    rw [and_range _ 12 4 0xf000 (by decide)]
+    have hW := getN_lt 0 16 X
+    rw [or_eq_add _ _ 12 (by omega) (by omega)]
+    arith_simp at hW ⊢
+    omega
+  · simp only [ICMPExt_get_reserved, ICMPExtensionsStructure_version_and_reserved_]
+    mem_simp
+    rw [and_low _ 12 0xfff (by decide)]
+    arith_simp
+    omega
+
+/-! ### BootP::chaddr for a 6-byte address: left-aligned in the 16-byte field, zero-filled -/
+theorem BootP_chaddr_mac_lens : (⟨"BootP", "chaddr_mac", 1536, 128, 1208925819614629174706176, BootP_get_chaddr_mac, BootP_set_chaddr_mac⟩ : CustomAcc).IsLens := by
+  intro v X hv
+  simp only [Nat.reducePow] at hv
+  have hv48 : v < 281474976710656 := by omega
+  constructor
+  · simp only [BootP_set_chaddr_mac]
+    rw [putN_adj' 1536 80 48 1616 128 0 v X (by decide) (by decide)]
+    apply putN_congr
+    simp only [Nat.reducePow]
+    omega
+  · simp only [BootP_get_chaddr_mac]
+    rw [getN_adj' 1536 80 48 1616 128 X (by decide) (by decide)]
+    have := getN_lt 1536 80 X
+    simp only [Nat.reducePow] at this ⊢
+    omega
+
+
+/-! ### LLC U format: the two modifier bit groups (bits 2-3 and 5-7 of the control octet) through the one public pair -/
+theorem LLC_modifier_hi_lens : (⟨"LLCUnnumbered", "modifier_function_hi", 18, 2, 1, LLC_get_modifier_hi 3 LLCUnnumbered_mod_func1 LLCUnnumbered_mod_func2,
+    LLC_set_modifier_hi 3 LLCUnnumbered_mod_func1 LLCUnnumbered_mod_func2⟩ : CustomAcc).IsLens := by
+  intro v X hv
+  simp only [Nat.mul_one, Nat.div_one, Nat.reducePow] at hv ⊢
+  have hh := getN_lt 18 2 X
+  have hl := getN_lt 21 3 X
+  simp only [Nat.reducePow] at hh hl
+  obtain ⟨a1, a2, a3⟩ := llc_mod_hi_arith v hv _ hh _ hl
+  constructor
+  · simp (config := {decide := true}) only [LLC_set_modifier_hi, LLC_set_modifier, LLC_get_modifier, LLCUnnumbered_mod_func1, LLCUnnumbered_mod_func2,
+      memGet, memSet, ite_true, ite_false, Nat.reduceMul, Nat.reduceAdd]
+    rw [putN_congr 18 2 _ v X (by simp only [Nat.reducePow]; rw [a1]; exact (Nat.mod_eq_of_lt hv).symm),
+      putN_congr 21 3 _ (getN 21 3 X) _ (by simp only [Nat.reducePow]; rw [a2]; exact (Nat.mod_eq_of_lt hl).symm),
+      ← getN_putN_disjoint 18 2 21 3 v X (by decide), putN_getN]
+  · simp (config := {decide := true}) only [LLC_get_modifier_hi, LLC_get_modifier, LLCUnnumbered_mod_func1, LLCUnnumbered_mod_func2,
+      memGet, ite_true, Nat.reduceMul, Nat.reduceAdd]
+    exact a3
+
+theorem LLC_modifier_lo_lens : (⟨"LLCUnnumbered", "modifier_function_lo", 21, 3, 1, LLC_get_modifier_lo 3 LLCUnnumbered_mod_func1 LLCUnnumbered_mod_func2,
+    LLC_set_modifier_lo 3 LLCUnnumbered_mod_func1 LLCUnnumbered_mod_func2⟩ : CustomAcc).IsLens := by
+  intro v X hv
+  simp only [Nat.mul_one, Nat.div_one, Nat.reducePow] at hv ⊢
+  have hh := getN_lt 18 2 X
+  have hl := getN_lt 21 3 X
+  simp only [Nat.reducePow] at hh hl
+  obtain ⟨a1, a2, a3⟩ := llc_mod_lo_arith v hv _ hh _ hl
+  constructor
+  · simp (config := {decide := true}) only [LLC_set_modifier_lo, LLC_set_modifier, LLC_get_modifier, LLCUnnumbered_mod_func1, LLCUnnumbered_mod_func2,
+      memGet, memSet, ite_true, ite_false, Nat.reduceMul, Nat.reduceAdd]
+    rw [putN_congr 18 2 _ (getN 18 2 X) X (by simp only [Nat.reducePow]; rw [a1]; exact (Nat.mod_eq_of_lt hh).symm),
+      putN_congr 21 3 _ v _ (by simp only [Nat.reducePow]; rw [a2]; exact (Nat.mod_eq_of_lt hv).symm), putN_getN]
+  · simp (config := {decide := true}) only [LLC_get_modifier_lo, LLC_get_modifier, LLCUnnumbered_mod_func1, LLCUnnumbered_mod_func2,
+      memGet, ite_true, Nat.reduceMul, Nat.reduceAdd]
+    exact a3
+
 /-- every hand-written model in `Custom.table` is the lens at its declared position -/
 theorem table_sound : ∀ a ∈ table, a.IsLens := by
   intro a ha
   simp only [table, List.mem_cons, List.not_mem_nil, or_false] at ha
-  rcases ha with rfl | rfl | rfl | rfl | rfl | rfl | rfl | rfl | rfl | rfl | rfl | rfl | rfl | rfl | rfl | rfl | rfl | rfl | rfl | rfl | rfl | rfl | rfl | rfl | rfl | rfl | rfl | rfl | rfl | rfl | rfl | rfl | rfl | rfl | rfl
+  rcases ha with rfl | rfl | rfl | rfl | rfl | rfl | rfl | rfl | rfl | rfl | rfl | rfl | rfl | rfl | rfl | rfl | rfl | rfl | rfl | rfl | rfl | rfl | rfl | rfl | rfl | rfl | rfl | rfl | rfl | rfl | rfl | rfl | rfl | rfl | rfl | rfl | rfl | rfl | rfl | rfl | rfl | rfl | rfl | rfl | rfl | rfl | rfl | rfl | rfl | rfl | rfl | rfl | rfl | rfl | rfl | rfl | rfl | rfl | rfl | rfl | rfl | rfl | rfl | rfl | rfl | rfl | rfl | rfl | rfl | rfl | rfl | rfl | rfl | rfl | rfl | rfl | rfl | rfl | rfl | rfl | rfl | rfl
   · exact IP_flags_lens
   · exact IP_fragment_offset_lens
   · exact IPv6_traffic_class_lens
@@ -606,6 +737,53 @@ theorem table_sound : ∀ a ∈ table, a.IsLens := by
   · exact LE16_low4_lens 16 128 _ _ (by decide)
   · exact LE16_low4_lens 18 144 _ _ (by decide)
   · exact LE16_hi12_lens 18 148 _ _ (by decide)
+  · exact LE16_low4_lens 22 176 _ _ (by decide)
+  · exact LE16_hi12_lens 22 180 _ _ (by decide)
+  · exact LE16_low4_lens 22 176 _ _ (by decide)
+  · exact LE16_hi12_lens 22 180 _ _ (by decide)
+  · exact LE16_low4_lens 22 176 _ _ (by decide)
+  · exact LE16_hi12_lens 22 180 _ _ (by decide)
+  · exact LE16_low4_lens 22 176 _ _ (by decide)
+  · exact LE16_hi12_lens 22 180 _ _ (by decide)
+  · exact LE16_low4_lens 22 176 _ _ (by decide)
+  · exact LE16_hi12_lens 22 180 _ _ (by decide)
+  · exact LE16_low4_lens 22 176 _ _ (by decide)
+  · exact LE16_hi12_lens 22 180 _ _ (by decide)
+  · exact LE16_low4_lens 22 176 _ _ (by decide)
+  · exact LE16_hi12_lens 22 180 _ _ (by decide)
+  · exact LE16_low4_lens 22 176 _ _ (by decide)
+  · exact LE16_hi12_lens 22 180 _ _ (by decide)
+  · exact LE16_low4_lens 22 176 _ _ (by decide)
+  · exact LE16_hi12_lens 22 180 _ _ (by decide)
+  · exact LE16_low4_lens 22 176 _ _ (by decide)
+  · exact LE16_hi12_lens 22 180 _ _ (by decide)
+  · exact LE16_low4_lens 22 176 _ _ (by decide)
+  · exact LE16_hi12_lens 22 180 _ _ (by decide)
+  · exact LE16_low4_lens 22 176 _ _ (by decide)
+  · exact LE16_hi12_lens 22 180 _ _ (by decide)
+  · exact LE16_low4_lens 22 176 _ _ (by decide)
+  · exact LE16_hi12_lens 22 180 _ _ (by decide)
+  · exact LE16_low4_lens 16 128 _ _ (by decide)
+  · exact LE16_low4_lens 18 144 _ _ (by decide)
+  · exact LE16_hi12_lens 18 148 _ _ (by decide)
+  · exact LLC_lowbit_lens 0 0 _ _ (by decide)
+  · exact LLC_lowbit_lens 1 8 _ _ (by decide)
+  · exact LLC_lowbit_lens 0 0 _ _ (by decide)
+  · exact LLC_lowbit_lens 1 8 _ _ (by decide)
+  · exact LLC_lowbit_lens 0 0 _ _ (by decide)
+  · exact LLC_lowbit_lens 1 8 _ _ (by decide)
+  · exact LE_member_lens 2 1 7 17 _ _ _ _ (by decide) (by intro X; simp (config := {decide := true}) only [LLC_get_send_seq, LLC_set_send_seq, LLCInfo_send_seq_num, ite_true, ite_false, or_true, true_or]) (by intro v X; simp (config := {decide := true}) only [LLC_get_send_seq, LLC_set_send_seq, LLCInfo_send_seq_num, ite_true, ite_false])
+  · exact LE_member_lens 3 0 1 24 _ _ _ _ (by decide) (by intro X; simp (config := {decide := true}) only [LLC_get_poll_final, LLC_set_poll_final, LLCInfo_poll_final_bit, ite_true, ite_false, or_true, true_or]) (by intro v X; simp (config := {decide := true}) only [LLC_get_poll_final, LLC_set_poll_final, LLCInfo_poll_final_bit, ite_true, ite_false])
+  · exact LE_member_lens 3 1 7 25 _ _ _ _ (by decide) (by intro X; simp (config := {decide := true}) only [LLC_get_recv_seq, LLC_set_recv_seq, LLCInfo_recv_seq_num, ite_true, ite_false, or_true, true_or]) (by intro v X; simp (config := {decide := true}) only [LLC_get_recv_seq, LLC_set_recv_seq, LLCInfo_recv_seq_num, ite_true, ite_false])
+  · exact LE_member_lens 2 2 2 18 _ _ _ _ (by decide) (by intro X; simp (config := {decide := true}) only [LLC_get_super_func, LLC_set_super_func, LLCSupervisory_supervisory_func, ite_true, ite_false, or_true, true_or]) (by intro v X; simp (config := {decide := true}) only [LLC_get_super_func, LLC_set_super_func, LLCSupervisory_supervisory_func, ite_true, ite_false])
+  · exact LE_member_lens 3 0 1 24 _ _ _ _ (by decide) (by intro X; simp (config := {decide := true}) only [LLC_get_poll_final, LLC_set_poll_final, LLCSupervisory_poll_final_bit, ite_true, ite_false, or_true, true_or]) (by intro v X; simp (config := {decide := true}) only [LLC_get_poll_final, LLC_set_poll_final, LLCSupervisory_poll_final_bit, ite_true, ite_false])
+  · exact LE_member_lens 3 1 7 25 _ _ _ _ (by decide) (by intro X; simp (config := {decide := true}) only [LLC_get_recv_seq, LLC_set_recv_seq, LLCSupervisory_recv_seq_num, ite_true, ite_false, or_true, true_or]) (by intro v X; simp (config := {decide := true}) only [LLC_get_recv_seq, LLC_set_recv_seq, LLCSupervisory_recv_seq_num, ite_true, ite_false])
+  · exact LE_member_lens 2 4 1 20 _ _ _ _ (by decide) (by intro X; simp (config := {decide := true}) only [LLC_get_poll_final, LLC_set_poll_final, LLCUnnumbered_poll_final_bit, ite_true, ite_false, or_true, true_or]) (by intro v X; simp (config := {decide := true}) only [LLC_get_poll_final, LLC_set_poll_final, LLCUnnumbered_poll_final_bit, ite_true, ite_false])
+  · exact LLC_modifier_hi_lens
+  · exact LLC_modifier_lo_lens
+  · exact ICMPExt_version_lens
+  · exact ICMPExt_reserved_lens
+  · exact BootP_chaddr_mac_lens
   · exact VXLAN_flags_lens
   · exact VXLAN_vni_lens
 
